@@ -53,21 +53,21 @@ type monitor struct {
 	trace []string
 
 	// effects
-	roundChanges   int
-	maxRound       int64
-	decidedRounds  map[core.Duty]map[int]int64
-	rejected       map[string]int // verifier rejections by error class
-	rejectedByz    int
-	acceptedByz    int
-	equivocations  int
-	candidates     map[core.Duty]map[string]bool
-	decidedHash    map[core.Duty]map[int]string
-	precursors     map[string]int
-	aggCalls       map[string]int
-	templateOdd    int
-	vapiErrors     map[string]int
-	vcSubmitted    int
-	dutyStoreErrs  int
+	roundChanges  int
+	maxRound      int64
+	decidedRounds map[core.Duty]map[int]int64
+	rejected      map[string]int // verifier rejections by error class
+	rejectedByz   int
+	acceptedByz   int
+	equivocations int
+	candidates    map[core.Duty]map[string]bool
+	decidedHash   map[core.Duty]map[int]string
+	precursors    map[string]int
+	aggCalls      map[string]int
+	templateOdd   int
+	vapiErrors    map[string]int
+	vcSubmitted   int
+	dutyStoreErrs int
 }
 
 func newMonitor(w *world) *monitor {
@@ -189,7 +189,7 @@ func (m *monitor) observe(point string, nodeIdx int, duty core.Duty, set core.Si
 			w.c.Violation("c01/"+point+"/two-signing-roots-for-one-duty-and-validator/"+dt,
 				fmt.Sprintf("two fully signed %s objects with different signing roots for one duty and validator: node %d at %s, node %d at %s", dt, prev.Node, prev.Point, nodeIdx, point),
 				m.witness(map[string]any{"duty": duty.String(), "validator": v.Name,
-					"first": map[string]any{"node": prev.Node, "point": prev.Point, "at": prev.At, "signing_root": "0x" + hex.EncodeToString(prev.Root[:]), "object": prev.Object},
+					"first":  map[string]any{"node": prev.Node, "point": prev.Point, "at": prev.At, "signing_root": "0x" + hex.EncodeToString(prev.Root[:]), "object": prev.Object},
 					"second": map[string]any{"node": nodeIdx, "point": point, "at": m.stamp(), "signing_root": "0x" + hex.EncodeToString(sr[:]), "object": kitShortJSON(obj), "valid": valid}}))
 		}
 	}
